@@ -24,6 +24,7 @@ fn main() {
     let mut cx = Cx::new(&id);
     let mut i = 3;
     let mut budget: Option<u64> = None;
+    let mut mem_mb: u64 = 8192;
     while i < args.len() {
         let a = args[i].as_str();
         let mut val = || {
@@ -46,9 +47,16 @@ fn main() {
             "--log" => cx.log_path = Some(val()),
             "--dump" => cx.dump = true,
             "--case-budget-ms" => budget = Some(val().parse().unwrap_or_else(|_| usage())),
+            "--mem-mb" => mem_mb = val().parse().unwrap_or_else(|_| usage()),
             _ => usage(),
         }
         i += 1;
+    }
+    // address-space cap: an engine loop that keeps writing must not take the machine down; an allocation failure
+    // aborts the process and the driver treats it like a CPU-budget overrun (suspect, confirmed alone)
+    unsafe {
+        let lim = libc::rlimit { rlim_cur: mem_mb << 20, rlim_max: mem_mb << 20 };
+        libc::setrlimit(libc::RLIMIT_AS, &lim);
     }
     cx.open_log();
     core::install_panic_hook();
